@@ -21,7 +21,24 @@ Definition oimg_exact := option_eqb rows_exact.
 Definition cimg_eqb (a b : cimage Q Z) : bool :=
   qlist_eqb (cxs a) (cxs b) && qlist_eqb (cys a) (cys b) && list_eqb zlist_eqb (cpix a) (cpix b).
 Definition oq_close (a b : option Q) : bool := option_eqb (qclose tol) a b.
+Definition tol32 : Q := (1 # 100000).
+Definition oimg_close32 := option_eqb (list_eqb (qlist_close tol32)).
 """
+INT_DTYPES = ["uint8", "uint16", "int32", "int64"]   # camera frames are integers
+DTYPES = INT_DTYPES + ["float32"]
+
+
+def rand_scale(rng):
+    """positive intensity-unit changes over many decades: exact powers of two 2^-60..2^60, and 1e-12 / 1e12"""
+    r = rng.random()
+    if r < 0.15:
+        return 1e-12
+    if r < 0.3:
+        return 1e12
+    if r < 0.65:
+        return 2.0 ** rng.randint(-60, -30)
+    return 2.0 ** rng.randint(-30, 60)
+
 TOL = 1e-9
 
 
@@ -68,13 +85,16 @@ def gen_values(rng, shape, lo=0.25, hi=16, bits=4):
 META = dict(medium_index=1.33, illum_wavelen=0.66, illum_polarization=(1, 0), noise_sd=0.0625)
 
 
-def mk(rows, spacing=1.0, name="img", origin=None, **over):
+def mk(rows, spacing=1.0, name="img", origin=None, dtype=None, **over):
     """public constructor: a (z=1, x, y) image with optics metadata"""
     import numpy as np
     from holopy.core.metadata import data_grid
     kw = dict(META)
     kw.update(over)
-    im = data_grid(np.array(rows, dtype=float), spacing=spacing, name=name, **kw)
+    arr = np.array(rows, dtype=float)
+    if dtype is not None:
+        arr = arr.astype(dtype)
+    im = data_grid(arr, spacing=spacing, name=name, **kw)
     if origin is not None:
         im = im.assign_coords(x=im.x + origin[0], y=im.y + origin[1])
     return im
@@ -135,49 +155,66 @@ def stage_normalize(ctx):
     from holopy.core.metadata import data_grid
     rng = ctx.subrng("normalize")
     exprs, metas = [], []
-    for k in range(ctx.n(60, 600)):
+    for k in range(ctx.n(70, 700)):
         shape = gen_shape(rng)
-        rows = gen_values(rng, shape, lo=rng.choice([0.25, -8, 0]), hi=rng.choice([4, 16, 1024]))
+        dtype = rng.choice(DTYPES) if rng.random() < 0.25 else None
+        if dtype is None:
+            rows = gen_values(rng, shape, lo=rng.choice([0.25, -8, 0]), hi=rng.choice([4, 16, 1024]))
+            if rng.random() < 0.5:      # the same image in other intensity units (exact: powers of two, 2^-60..2^60)
+                unit = 2.0 ** rng.randint(-60, 60)
+                rows = [[v * unit for v in r] for r in rows]
+        else:                           # integer (camera) and single-precision pixels
+            lo = 0 if dtype.startswith("uint") else -50
+            rows = [[float(rng.randint(lo, 200)) for _ in range(shape[1])] for _ in range(shape[0])]
         tot = sum(Fraction(v) for r in rows for v in r)
         mean_abs = sum(abs(Fraction(v)) for r in rows for v in r) / (shape[0] * shape[1])
         if abs(tot) < mean_abs / 16 or tot == 0:
             ctx.count("normalize:skipped-illconditioned")
             continue  # sum ~ 0: the property assumes a non-zero sum; cancellation is excluded by the generator
         sp = rng.choice([1.0, 0.5, 0.125, 0.1])
-        multichannel = rng.random() < 0.15
+        multichannel = dtype is None and rng.random() < 0.15
         if multichannel:
             cols = ["red", "green"]
-            arr = np.array([rows, [[v * 2 + 1 for v in r] for r in rows]], dtype=float).transpose(1, 2, 0)[None]
+            arr = np.array([rows, [[v * 2 + v for v in r] for r in rows]], dtype=float).transpose(1, 2, 0)[None]
             im = data_grid(arr, spacing=sp, name="mc", extra_dims={"illumination": cols}, **META)
             flat_in = [float(v) for v in im.values.ravel()]
         else:
-            im = mk(rows, sp, origin=(dy(rng, -4, 4), dy(rng, -4, 4)) if rng.random() < 0.3 else None)
+            im = mk(rows, sp, origin=(dy(rng, -4, 4), dy(rng, -4, 4)) if rng.random() < 0.3 else None, dtype=dtype)
             flat_in = [v for r in rows for v in r]
-        out = normalize(im)
-        flat = [float(v) for v in out.values.ravel()]
-        if nonfinite(ctx, "normalize", [flat], dict(kind="normalize", values=flat_in, got=repr(flat))):
-            continue
-        ctx.count("normalize:%s" % ("multichannel" if multichannel else "%dx%d" % shape if shape[0] * shape[1] <= 4 else "grid"))
-        ctx.nontriv(("norm", shape, multichannel))
-        exprs.append("qlist_close tol (normalize QO %s) %s" % (ql(flat_in), ql(flat)))
-        metas.append(dict(kind="corr-normalize", values=flat_in, impl=flat))
-        # direct predicates on the implementation
+        scale = rand_scale(rng) if rng.random() < 0.75 else dy(rng, 0.25, 64, 2)
+        data = dict(kind="normalize", values=flat_in, scale=scale, dtype=dtype)
         ctx.explored += 1
-        scale = dy(rng, 0.25, 64, 2)
-        n2 = normalize(out)
-        n3 = normalize(im * scale)
-        m = float(out.values.mean())
+        try:
+            out = normalize(im)
+            n2 = normalize(out)
+            n3 = normalize(im * scale)
+        except Exception as e:  # noqa  - a valid image (sum != 0) must be normalised, whatever its units
+            ctx.violation("normalize:raises", "normalize raised %s on a valid image (sum %.3g, rescaled by %.3g): %s" % (
+                type(e).__name__, float(tot), scale, str(e)[:120]), data)
+            continue
+        flat = [float(v) for v in out.values.ravel()]
+        if nonfinite(ctx, "normalize", [flat], dict(data, got=repr(flat))):
+            continue
+        ctx.count("normalize:%s" % ("multichannel" if multichannel else dtype if dtype else
+                                    "%dx%d" % shape if shape[0] * shape[1] <= 4 else "grid"))
+        ctx.count("normalize:unit-decade-%+03d" % (int(math.floor(math.log10(float(mean_abs)) / 6)) * 6))
+        ctx.nontriv(("norm", shape, multichannel, dtype))
+        exprs.append("qlist_close %s (normalize QO %s) %s" % ("tol32" if dtype == "float32" else "tol", ql(flat_in), ql(flat)))
+        metas.append(dict(kind="corr-normalize", values=flat_in, impl=flat, dtype=dtype))
+        # direct predicates on the implementation
+        dtol = 1e-5 if dtype == "float32" else 1e-12
+        m = float(out.values.astype(float).mean())
         bad = None
         if out.shape != im.shape:
             bad = "shape changed"
-        elif abs(m - 1) > 1e-12:
+        elif abs(m - 1) > dtol:
             bad = "mean of normalized image is %r" % m
-        elif float(abs(n2 - out).max()) > 1e-12 * float(abs(out).max()):
+        elif float(abs(n2 - out).max()) > dtol * float(abs(out).max()):
             bad = "not idempotent"
-        elif float(abs(n3 - out).max()) > 1e-12 * float(abs(out).max()):
+        elif float(abs(n3 - out).max()) > dtol * float(abs(out).max()):
             bad = "not invariant to rescaling by %r" % scale
         if bad:
-            ctx.violation("normalize:identity", "normalize: " + bad, dict(kind="normalize", values=flat_in, scale=scale))
+            ctx.violation("normalize:identity", "normalize: " + bad, data)
         md = meta_diff(im, out)
         if md:
             ctx.violation("metadata:normalize", "normalize does not keep metadata: " + md, dict(kind="meta", op="normalize", values=flat_in))
@@ -193,11 +230,11 @@ def zf_call(rows, xs, ys):
         natlit(len(rows)), natlit(len(rows[0])), ql(xs), ql(ys), rowsl(rows))
 
 
-def run_zf(rows, sp, xs=None, ys=None):
+def run_zf(rows, sp, xs=None, ys=None, dtype=None):
     """returns (result rows | None for BadImage, input image, output image)"""
     from holopy.core.process import zero_filter
     from holopy.core.errors import BadImage
-    im = mk(rows, sp)
+    im = mk(rows, sp, dtype=dtype)
     if xs is not None:
         im = im.assign_coords(x=xs, y=ys)
     try:
@@ -207,13 +244,13 @@ def run_zf(rows, sp, xs=None, ys=None):
     return [[float(v) for v in r] for r in out.values[0]], im, out
 
 
-def zf_direct(ctx, rows, res, sp_uniform, tag):
+def zf_direct(ctx, rows, res, sp_uniform, tag, dtype=None):
     """the property's own clauses, evaluated on the implementation's result"""
     nx, ny = len(rows), len(rows[0])
     dead = [(i, j) for i in range(nx) for j in range(ny) if not rows[i][j] > 0]
     corners = {(0, 0), (0, ny - 1), (nx - 1, 0), (nx - 1, ny - 1)}
     ctx.explored += 1
-    data = dict(kind="zero_filter", rows=rows, result=res)
+    data = dict(kind="zero_filter", rows=rows, result=res, dtype=dtype)
     if any(d in corners for d in dead):
         if res is not None:
             ctx.violation("zero_filter:corner", "zero_filter accepted an image with a dead corner", data)
@@ -249,25 +286,25 @@ def stage_zero_filter(ctx):
     rng = ctx.subrng("zf")
     exprs, metas = [], []
 
-    def one(rows, sp, nonuni=False, exact=False, tag="rand"):
+    def one(rows, sp, nonuni=False, exact=False, tag="rand", dtype=None):
         nx, ny = len(rows), len(rows[0])
         if nonuni:
             xs = list(itertools.accumulate([dy(rng, 0.25, 2, 2) for _ in range(nx)]))
             ys = list(itertools.accumulate([dy(rng, 0.25, 2, 2) for _ in range(ny)]))
-            res, im, out = run_zf(rows, sp, xs, ys)
+            res, im, out = run_zf(rows, sp, xs, ys, dtype=dtype)
         else:
             xs = [i * sp for i in range(nx)]
             ys = [j * sp for j in range(ny)]
-            res, im, out = run_zf(rows, sp)
+            res, im, out = run_zf(rows, sp, dtype=dtype)
         if nonfinite(ctx, "zero_filter", res, dict(kind="zero_filter", rows=rows, result=repr(res))):
             return res
         cmpf = "oimg_exact" if exact else "oimg_close"
         lit = "None" if res is None else "(Some %s)" % rowsl(res)
         exprs.append("%s (%s) %s" % (cmpf, zf_call(rows, xs, ys), lit))
-        metas.append(dict(kind="corr-zero_filter", rows=rows, xs=xs, ys=ys, impl=res, exact=exact, stream=tag))
+        metas.append(dict(kind="corr-zero_filter", rows=rows, xs=xs, ys=ys, impl=res, exact=exact, stream=tag, dtype=dtype))
         ctx.count("zero_filter:%s" % tag)
         ctx.count("zero_filter:%s" % ("refused" if res is None else "ok"))
-        zf_direct(ctx, rows, res, not nonuni, tag)
+        zf_direct(ctx, rows, res, not nonuni, tag, dtype)
         if out is not None:
             md = meta_diff(im, out)
             if md:
@@ -307,6 +344,33 @@ def stage_zero_filter(ctx):
             ctx.nontriv(("zfm", k))
         if k < 1:
             ctx.sample(dict(op="zero_filter", rows=rows, result=res))
+    # (c) integer (camera) and single-precision pixel types: an isolated interior / edge dead pixel whose neighbour mean is
+    #     NOT an integer (the model's prediction is the exact rational mean), and a few multi-dead images
+    for k in range(ctx.n(30, 300)):
+        dtype = DTYPES[k % len(DTYPES)]
+        shape = (rng.randint(3, 7), rng.randint(3, 7))
+        rows = [[float(rng.randint(1, 200)) for _ in range(shape[1])] for _ in range(shape[0])]
+        where = ["interior", "edge", "multi"][(k // len(DTYPES)) % 3]
+        if where == "interior":
+            i, j = rng.randint(1, shape[0] - 2), rng.randint(1, shape[1] - 2)
+            nb = [(i - 1, j), (i + 1, j), (i, j - 1), (i, j + 1)]
+        elif where == "edge":
+            if rng.random() < 0.5:
+                i, j = rng.choice([0, shape[0] - 1]), rng.randint(1, shape[1] - 2)
+                nb = [(i, j - 1), (i, j + 1)]
+            else:
+                i, j = rng.randint(1, shape[0] - 2), rng.choice([0, shape[1] - 1])
+                nb = [(i - 1, j), (i + 1, j)]
+        else:
+            i, j = rng.randint(0, shape[0] - 1), rng.randint(1, shape[1] - 2)
+            nb = []
+            rows[(i + 2) % shape[0]][j] = 0.0 if shape[0] > 3 or (i + 2) % shape[0] != i else rows[(i + 2) % shape[0]][j]
+        rows[i][j] = 0.0
+        if nb and sum(rows[a][b] for a, b in nb) % len(nb) == 0:
+            rows[nb[0][0]][nb[0][1]] += 1.0      # make the neighbour mean fractional (x.25 / x.5 / x.75)
+        res = one(rows, rng.choice([1.0, 0.5, 0.125]), tag="dtype", dtype=dtype)
+        ctx.count("zero_filter:dtype-%s" % dtype)
+        ctx.nontriv(("zfd", dtype, where, k))
     finish_cases(ctx, "C18z", exprs, metas, lambda m: "corr:zero_filter:%s" % m["stream"],
                  lambda m: "model and implementation disagree on zero_filter (%s dead-pixel stream)" % m["stream"])
 
@@ -320,15 +384,28 @@ def stage_bg_correct(ctx):
     for k in range(ctx.n(80, 1000)):
         shape = (rng.randint(2, 6), rng.randint(2, 6))   # get_spacing needs two pixels per axis
         sp = rng.choice([1.0, 0.5, 0.1])
-        raw = gen_values(rng, shape, 0, 16)
-        bg = gen_values(rng, shape, 2, 16)
         use_df = rng.random() < 0.6
-        df = gen_values(rng, shape, 0, 2, 3) if use_df else [[0.0] * shape[1] for _ in range(shape[0])]
+        dtype = rng.choice(DTYPES) if rng.random() < 0.35 else None
         mode = rng.random()
+        if dtype is None:
+            raw = gen_values(rng, shape, 0, 16)
+            bg = gen_values(rng, shape, 2, 16)
+            df = gen_values(rng, shape, 0, 2, 3) if use_df else [[0.0] * shape[1] for _ in range(shape[0])]
+        else:
+            # integer camera frames (and float32): integer counts, raw >= df and bg >= df so that unsigned
+            # subtraction never wraps; a dead background pixel is bg == df
+            shape = (rng.randint(3, 6), rng.randint(3, 6))
+            df = [[float(rng.randint(0, 3)) if use_df else 0.0 for _ in range(shape[1])] for _ in range(shape[0])]
+            raw = [[d + rng.randint(0, 200) for d in r] for r in df]
+            bg = [[d + rng.randint(2, 200) for d in r] for r in df]
+            if mode >= 0.35 and mode <= 0.9 and rng.random() < 0.6:
+                mode = 0.0
         if mode < 0.35 and shape[0] * shape[1] > 1:      # dead background pixel(s): bg == df or bg < df
             for _ in range(rng.choice([1, 1, 2])):
                 i, j = rng.randrange(shape[0]), rng.randrange(shape[1])
-                bg[i][j] = df[i][j] - rng.choice([0.0, 0.0, 0.5])
+                if dtype is not None and rng.random() < 0.7 and (i in (0, shape[0] - 1)) and (j in (0, shape[1] - 1)):
+                    i = 1       # mostly away from the corners, so that the interpolated value is observed
+                bg[i][j] = df[i][j] - (rng.choice([0.0, 0.0, 0.5]) if dtype is None else 0.0)
         bshape, bsp, dshape = shape, sp, shape
         if mode > 0.9:    # guard: different shape or spacing
             which = rng.choice(["shape", "spacing", "dfshape"] if use_df else ["shape", "spacing"])
@@ -342,15 +419,15 @@ def stage_bg_correct(ctx):
                 df = [r + [0.0] for r in df]
         raw_sd = rng.choice([None, 0.0625])
         bg_sd = rng.choice([None, 0.125])
-        imr = mk(raw, sp, name="raw", noise_sd=raw_sd)
-        imb = mk(bg, bsp, name="bg", noise_sd=bg_sd)
-        imd = mk(df, sp, name="df") if use_df else None
+        imr = mk(raw, sp, name="raw", noise_sd=raw_sd, dtype=dtype)
+        imb = mk(bg, bsp, name="bg", noise_sd=bg_sd, dtype=dtype)
+        imd = mk(df, sp, name="df", dtype=dtype) if use_df else None
         try:
             out = bg_correct(imr, imb, imd)
             res = [[float(v) for v in r] for r in out.values[0]]
         except BadImage:
             out, res = None, None
-        if nonfinite(ctx, "bg_correct", res, dict(kind="bg", raw=raw, bg=bg, df=df, got=repr(res))):
+        if nonfinite(ctx, "bg_correct", res, dict(kind="bg", raw=raw, bg=bg, df=df, dtype=dtype, got=repr(res))):
             continue
         guard = "bg_guard QO %s %s %s %s %s %s" % (
             listlit([zlit(1), zlit(shape[0]), zlit(shape[1])]), listlit([zlit(1), zlit(bshape[0]), zlit(bshape[1])]),
@@ -362,10 +439,12 @@ def stage_bg_correct(ctx):
         else:
             call = "bg_correct QO (%s) 0%%nat 0%%nat (getc QO []) (getc QO []) (getpix QO []) (getpix QO []) (getpix QO [])" % guard
         lit = "None" if res is None else "(Some %s)" % rowsl(res)
-        exprs.append("oimg_close (%s) %s" % (call, lit))
+        exprs.append("%s (%s) %s" % ("oimg_close32" if dtype == "float32" else "oimg_close", call, lit))
         metas.append(dict(kind="corr-bg_correct", what="values", raw=raw, bg=bg, df=df if use_df else None,
-                          spacing=[sp, bsp], impl=res))
+                          spacing=[sp, bsp], impl=res, dtype=dtype))
         ctx.count("bg_correct:%s" % ("refused" if res is None else "ok"))
+        if dtype:
+            ctx.count("bg_correct:dtype-%s" % dtype)
         ctx.nontriv(("bg", k))
         if out is not None:
             got_sd = out.attrs.get("noise_sd")
@@ -382,10 +461,10 @@ def stage_bg_correct(ctx):
                     den = bg[i][j] - df[i][j]
                     if den > 0:
                         want = (raw[i][j] - df[i][j]) / den
-                        if abs(res[i][j] - want) > 1e-12 * max(1.0, abs(want)):
+                        if abs(res[i][j] - want) > (1e-5 if dtype == "float32" else 1e-12) * max(1.0, abs(want)):
                             ctx.violation("bg_correct:formula", "bg_correct is not (raw-df)/(bg-df) at a live pixel",
-                                          dict(kind="bg", raw=raw, bg=bg, df=df, at=[i, j], want=want, got=res[i][j]))
-            ref = imr if raw_sd is not None else mk(raw, sp, name="raw", noise_sd=bg_sd)
+                                          dict(kind="bg", raw=raw, bg=bg, df=df, dtype=dtype, at=[i, j], want=want, got=res[i][j]))
+            ref = imr if raw_sd is not None else mk(raw, sp, name="raw", noise_sd=bg_sd, dtype=dtype)
             md = meta_diff(ref, out)
             if md:
                 ctx.violation("metadata:bg_correct", "bg_correct does not keep raw's metadata: " + md,
@@ -404,12 +483,12 @@ def stage_bg_correct(ctx):
 
 
 # --- subimage -------------------------------------------------------------------------
-def crop_case(ctx, exprs, metas, shape, sp, org, center, cshape, tag):
+def crop_case(ctx, exprs, metas, shape, sp, org, center, cshape, tag, dtype=None):
     import numpy as np
     from holopy.core.process import subimage
     nx, ny = shape
     rows = [[10 * i + j + 1 for j in range(ny)] for i in range(nx)]
-    im = mk(rows, sp, origin=org)
+    im = mk(rows, sp, origin=org, dtype=dtype)
     xs = [float(v) for v in im.x.values]
     ys = [float(v) for v in im.y.values]
     try:
@@ -498,11 +577,12 @@ def stage_subimage(ctx):
         org = (dy(rng, -4, 4), dy(rng, -4, 4)) if rng.random() < 0.5 else None
         cx, cy = dy(rng, -2, shape[0] + 2, 2), dy(rng, -2, shape[1] + 2, 2)
         r = rng.random()
+        dtype = rng.choice(DTYPES) if rng.random() < 0.4 else None     # integer / float32 pixels keep their values too
         if r < 0.5:
-            crop_case(ctx, exprs, metas, shape, sp, org, (cx, cy), rng.randint(0, 8), "random-scalar")
+            crop_case(ctx, exprs, metas, shape, sp, org, (cx, cy), rng.randint(0, 8), "random-scalar", dtype)
         elif r < 0.8:
             crop_case(ctx, exprs, metas, shape, sp, org, (cx, cy, dy(rng, 0, 3, 1)),
-                      (rng.randint(1, 7), rng.randint(1, 7), rng.randint(1, 3)), "random-3tuple")
+                      (rng.randint(1, 7), rng.randint(1, 7), rng.randint(1, 3)), "random-3tuple", dtype)
         elif r < 0.9:
             crop_case(ctx, exprs, metas, shape, sp, org, (cx, cy), (rng.randint(1, 7), rng.randint(1, 7)), "arity-2tuple-shape")
         else:
@@ -632,6 +712,15 @@ def gen_hologram(rng):
     return holo, par
 
 
+def rescaled(holo, unit):
+    if unit == 1.0:
+        return holo
+    out = holo * unit
+    out.attrs = holo.attrs
+    out.name = holo.name
+    return out
+
+
 def center_error(holo, par):
     from holopy.core.process import center_find
     c = center_find(holo)
@@ -649,9 +738,18 @@ def stage_center(ctx):
     nprior = ctx.n(6, 40)
     for k in range(ctx.n(30, 300)):
         holo, par = gen_hologram(rng)
-        found, err = center_error(holo, par)
-        worst = max(worst, err)
+        # the same hologram in other intensity units (2 of 3): 2^-60..2^60, 1e-12, 1e12
+        par["unit"] = rand_scale(rng) if k % 3 else 1.0
+        holo = rescaled(holo, par["unit"])
         ctx.explored += 1
+        try:
+            found, err = center_error(holo, par)
+        except Exception as e:  # noqa
+            ctx.violation("center_find:raises", "center_find raised %s on a computed hologram rescaled by %.3g: %s" % (
+                type(e).__name__, par["unit"], str(e)[:120]), dict(kind="center", par=par))
+            continue
+        worst = max(worst, err)
+        ctx.count("center_find:unit-%s" % ("1" if par["unit"] == 1.0 else "small" if par["unit"] < 1 else "large"))
         ctx.count("center_find:detector-%d" % (par["npx"] // 40 * 40))
         ctx.nontriv(("cf", k))
         if not err <= 1.0:
@@ -694,7 +792,9 @@ def stage_center(ctx):
 
 
 def run(ctx):
-    ctx.rule = ("dyadic images 1x1..7x7 (incl. 1xN, Nx1, multi-channel) with origin/spacing varied; every single dead-pixel "
+    ctx.rule = ("pixel types float64 / float32 / uint8 / uint16 / int32 / int64; intensity units over 2^-60..2^60, 1e-12, 1e12 "
+                "(normalize inputs and rescalings, holograms for the centre finder); "
+                "dyadic images 1x1..7x7 (incl. 1xN, Nx1, multi-channel) with origin/spacing varied; every single dead-pixel "
                 "position + multi-dead/runs/non-uniform coordinates; crops: every integer and half-integer centre x every size "
                 "per axis (incl. non-fitting, wrap-around, wrong arity); push streams of 0-13 scalars/arrays/images; computed "
                 "single-sphere holograms 60-160 px, centre in the central 60%, r 0.3-1.0, n 1.4-1.65, z 5-20; non-trivial = "
@@ -765,22 +865,33 @@ def replay(ctx, data):
         holo = calc_holo(detector_grid((par["npx"], par["npy"]), par["spacing"]),
                          Sphere(n=par["n"], r=par["r"], center=tuple(par["center"])), medium_index=1.33,
                          illum_wavelen=0.66, illum_polarization=(1, 0))
-        found, err = center_error(holo, par)
+        holo = rescaled(holo, par.get("unit", 1.0))
         ctx.explored += 1
+        try:
+            found, err = center_error(holo, par)
+        except Exception as e:  # noqa
+            print("replay: center_find raised %s: %s" % (type(e).__name__, e))
+            ctx.violation(data["key"], data["what"], d)
+            return
         print("replay: center_find=%s true=%s error=%.3f px" % (found, [c / par["spacing"] for c in par["center"][:2]], err))
         if not err <= 1.0:
             ctx.violation(data["key"], data["what"], d)
     elif kind == "zero_filter":
-        res, _, _ = run_zf(d["rows"], 1.0)
+        res, _, _ = run_zf(d["rows"], 1.0, dtype=d.get("dtype"))
         print("replay: zero_filter ->", res)
-        zf_direct(ctx, d["rows"], res, True, "replay")
+        zf_direct(ctx, d["rows"], res, True, "replay", d.get("dtype"))
     elif kind == "normalize":
         import numpy as np
         from holopy.core.process import normalize
-        im = mk([d["values"]], 1.0)
-        out = normalize(im)
-        n3 = normalize(im * d.get("scale", 2.0))
+        im = mk([d["values"]], 1.0, dtype=d.get("dtype"))
         ctx.explored += 1
+        try:
+            out = normalize(im)
+            n3 = normalize(im * d.get("scale", 2.0))
+        except Exception as e:  # noqa
+            print("replay: normalize raised %s: %s" % (type(e).__name__, e))
+            ctx.violation(data["key"], data["what"], d)
+            return
         print("replay: normalize mean=%r idem-err=%.3g scale-err=%.3g" % (
             float(out.values.mean()), float(abs(normalize(out) - out).max()), float(abs(n3 - out).max())))
         tol = 1e-12 * float(abs(out).max())
